@@ -3,6 +3,7 @@ package drive
 import (
 	"encoding/hex"
 	"fmt"
+	"github.com/btcsuite/btcd/btcec/v2"
 	"github.com/btcsuite/btcd/btcec/v2/schnorr"
 	"math/rand"
 
@@ -469,8 +470,19 @@ func (g *bridgeGen) newAddress() (addr, net, kind string) {
 	case "p2tr":
 		a, err = btcutil.NewAddressTaproot(b32, np)
 	case "p2pk":
+		// legacy pay-to-pubkey "addresses" are the hex of the public key itself: compressed, uncompressed or hybrid
 		k := sim.NewBtcKey(g.r.Int63(), 1, false)
-		addr = hex.EncodeToString(k.Pub.GetSecp256K1())
+		raw := k.Pub.GetSecp256K1()
+		if pk, perr := btcec.ParsePubKey(raw); perr == nil {
+			switch g.r.Intn(3) {
+			case 1:
+				raw = pk.SerializeUncompressed()
+			case 2:
+				raw = pk.SerializeUncompressed()
+				raw[0] = 0x06 | raw[64]&1
+			}
+		}
+		addr = hex.EncodeToString(raw)
 		g.addrIDs[addr] = "bad:" + addr[:8]
 		return
 	default:
